@@ -281,6 +281,11 @@ func init() {
 			}
 			return StrV{Fmt: &OpaqueFmt{Format: pat, Args: []Value{args[1]}}}
 		},
+		// vConc(x int) int: fork on the value of x (keeps later indexing concrete)
+		"vConc": func(in *Interp, st *State, fr *Frame, fn *ssa.Function, args []Value) Value {
+			t := args[0].(*Term)
+			return IntC(in.concretize(st, t, -1<<40, 1<<40))
+		},
 		// vInf() float64: +Inf
 		"vInf": func(in *Interp, st *State, fr *Frame, fn *ssa.Function, args []Value) Value {
 			return InfV{}
